@@ -23,6 +23,34 @@ CLAIMS = {
          "dense sweep of the shared binomial-bound functions, seeded accuracy trials per family/lg_k/n judged by TLC in integer arithmetic (bias, spread against the published RSE, coverage at 1..3 std devs), and bound-coherence / exactness clauses evaluated by TLC at every observation of the Theta, set-operation, Tuple, HLL, HLL-union and CPC traces",
          "statistical clauses are acceptance predicates over seeded samples (thresholds >= 6 standard errors + stated slack); the specification is an evaluator here, exhaustiveness comes from the sweep",
          "TLA+ acceptance specification evaluated by TLC over recorded sweeps and trials of the real estimators; C06 clauses inside the family trace specifications", "DESIGN.md 6 C06"),
+ "C03": ("model_checking",
+         "TLC exhausts the HLL design model (list/set thresholds, HLL_4 nibble + cur-min + aux-exception mechanism with its four cases and the cur-min shift, HLL_6/8) refining the contract (content = coupon set / per-slot max of the reference coupons fed); recorded lock-step executions of HLL_4/6/8 and start-full-size sketches on the same items (typed overloads, conversion copies, reset, permuted re-feeds) are validated by TLC against the contract, registers read from the documented updatable image",
+         "trusted: TLC, reference coupon computed with harness/refhash.hpp; lg_k 4..12 (quick) / ..16 (thorough) in traces",
+         TECH, "DESIGN.md 6 C03"),
+ "C04": ("model_checking",
+         "TLC exhausts the union design model (gadget with rebuild flag and stale counters, the case analysis on source mode / gadget mode / emptiness / relative lg_k, lvalue and rvalue update, get_result / get_estimate side effects) against the contract ResultDef (per-slot max of every coupon ever offered, folded to the minimum lg_k); negative configs reproduce the two repaired defects; recorded unions over inputs of random lg_k / type / fill level in several permutations are validated by TLC against ResultDef",
+         "trusted: TLC, reference coupons; the result content is read through get_result(HLL_8).serialize_updatable()",
+         TECH, "DESIGN.md 6 C04"),
+ "C05": ("model_checking",
+         "TLC exhausts the CPC design model (sparse / windowed representation, surprising-value table, first-interesting-column filter, promotion and window moves) and the union design model (accumulator vs bit-matrix cases A-D, reduce_k) refining the contract (matrix = set of reference (row, col) pairs, union = OR of row-folded matrices at the minimum lg_k); recorded executions crossing every flavor boundary, unions in several permutations and serialization round trips are validated by TLC against the contract with the matrix read through the verification hook",
+         "trusted: TLC, reference (row, col) from harness/refhash.hpp, the guarded accessor cpc_sketch::verif_bit_matrix(); the entropy-coded payload is checked by round trip only",
+         TECH, "DESIGN.md 6 C05"),
+ "C10": ("translation_validation",
+         "a reader written only from the layout documentation, as TLA+ Decode operators for 16 families, is compared by TLC field by field with what the implementation's API reports for every image of a deterministic catalogue; TLA+ Encode generates legacy / variant images (Theta v1-v4, Tuple legacy, KLL v1/v2, quantiles v1-v3, t-digest reference formats) that the real readers must reproduce; a corpus of 217 baseline images and the 15 shipped reference images must still read back to their recorded content and match the current writer; hashing of every input type is derived by TLC from reference hash words",
+         "trusted: TLC, the layout comments as transcribed in spec/Layout.tla, harness/refhash.hpp; CPC payload and bytes the API does not expose are pinned by byte equality with the corpus only",
+         "TLA+ transcription of the documented layouts (Decode/Encode) evaluated by TLC against images written and read by the real serializers", "DESIGN.md 6 C10"),
+ "C15": ("model_checking",
+         "TLC exhausts the Bloom contract over memory regions and views (copy, serialize/deserialize, wrap and writable wrap of memory another view writes later, union/intersect/invert, read-only refusal) and the design model of the repaired count caching (stored / cached / dirty, write-through points) refining it; negative configs reproduce the three repaired defects; recorded random interleavings over owned and caller-memory filters with reference XXH64 index tuples are validated by TLC against the contract; false-positive rate judged by a seeded verdict",
+         "trusted: TLC, reference XXH64 double hashing from harness/refhash.hpp; coherence is claimed for views created after the last write by another view (the documented 'later wrap' scenario)",
+         TECH, "DESIGN.md 6 C15"),
+ "C16": ("model_checking",
+         "TLC exhausts the VarOpt design model (warm-up, light / heavy dispatch, candidate-set growth, the one random deletion as an explicit parameter) refining the contract (min(n,k) items from the stream, heavy items exact, adjusted weights sum to the exact total); recorded histories with distinct items and integer weights, unions of sketches in every fill state, serialization round trips and continued use are validated by TLC against the contract; unbiasedness by a seeded verdict",
+         "trusted: TLC; integer weights make every comparison exact; 'effective k' of a union is the result's own k <= max_k (the library documents that k floats)",
+         TECH, "DESIGN.md 6 C16"),
+ "C18": ("model_checking",
+         "TLC exhausts the EBPPS bookkeeping contract (n, cumulative weight, maximum weight, k, c = min(k, W/wmax) as an exact rational, result sizes floor/ceil(c), merge in both directions) for small constants; recorded histories (updates, merges lvalue/rvalue in both size orders incl. empty operands, results, serialization) are validated by TLC against it; proportional inclusion by a seeded verdict",
+         "trusted: TLC; get_c() is compared with the exact rational within one unit of 1e-4",
+         TECH, "DESIGN.md 6 C18"),
 }
 
 PENDING_REASON = "check not yet built in this round (work in progress; DESIGN.md section 10 build order)"
